@@ -324,3 +324,8 @@ def run(ctx, rep):
     for v in r2.violations:
         if v["instance"] == "GROUP":
             rep.ob("R7", "group:function", False, v["detail"], v["site"], key="R7:group:function")
+    # a SPLIT/UNSPLIT reaches the pool of ITS security whatever else happens that day: every line of the day is offered to the
+    # split handler (shared with C01-R2); one remembered "split of the day" drops the other securities' splits (seeded change C09-s8)
+    import rules.c01 as c01
+    c01.every_line_of_day(R, rep, "R8", only=("apply splits", "pool unmatched acquisitions"))
+
